@@ -116,6 +116,16 @@ func (r *c14Run) check(id int, v interface{}, err error) {
 	}
 }
 
+// c14State reads the pool's internal state for a diagnostic message, without ever blocking the caller: with a pool
+// whose mutex is stuck the accessor itself would hang.
+func c14State(w *bigbuff.Workers) string {
+	var count, target, queued int
+	if !core.AwaitDone(core.Go(func() { count, target, queued = w.VerifState() }), 500) {
+		return "state unavailable: the pool's mutex is held"
+	}
+	return fmt.Sprintf("count=%d target=%d queued=%d", count, target, queued)
+}
+
 func newC14Run(c *core.Ctx, n int) *c14Run {
 	return &c14Run{c: c, w: new(bigbuff.Workers), execs: make([]atomic.Int32, n), starts: make([]atomic.Int64, n), ends: make([]atomic.Int64, n)}
 }
@@ -227,8 +237,7 @@ func c14Mixed(c *core.Ctx) {
 	}
 	desc := fmt.Sprintf("mode=%s callers=%d N=%d counts=%v", mode, n, N, counts)
 	if !core.AwaitDone(core.Go(wg.Wait), 10000) {
-		count, target, queued := r.w.VerifState()
-		c.Violate("call-starved", "not every Call/Wait returned (count=%d target=%d queued=%d); %s", count, target, queued, desc)
+		c.Violate("call-starved", "not every Call/Wait returned (%s); %s", c14State(r.w), desc)
 		c.SetDump(core.DumpAll())
 		close(stop)
 		return
@@ -330,8 +339,7 @@ func c14Shrink(c *core.Ctx) {
 	}
 	desc := fmt.Sprintf("K=%d queued_with_K=%d then %d calls with count %d, release=%s, queue_when_shrunk=%d", K, queuedBig, nSmall, small, release, q)
 	if !core.AwaitDone(core.Go(wg.Wait), 10000) {
-		count, target, queued := r.w.VerifState()
-		c.Violate("call-starved", "queued calls never ran (count=%d target=%d queued=%d); %s", count, target, queued, desc)
+		c.Violate("call-starved", "queued calls never ran (%s); %s", c14State(r.w), desc)
 		c.SetDump(core.DumpAll())
 		close(stop)
 		return
@@ -399,8 +407,7 @@ func c14Churn(c *core.Ctx) {
 		case <-time.After(50 * time.Millisecond):
 			// slow path: decide with heartbeats, not wall-clock
 			if !core.AwaitDone(done, 10000) {
-				count, target, queued := r.w.VerifState()
-				c.Violate("call-starved", "iteration %d: a Call never returned (count=%d target=%d queued=%d, counts=%v)", it, count, target, queued, counts)
+				c.Violate("call-starved", "iteration %d: a Call never returned (%s, counts=%v)", it, c14State(r.w), counts)
 				c.SetDump(core.DumpAll())
 				return
 			}
@@ -535,15 +542,9 @@ func c14Rejected(c *core.Ctx) {
 				}
 			})
 		}), 3000)
-		if !ret {
-			c.Violate("rejected-call-blocked", "the invalid call (%s) neither panicked nor returned", kind)
-			c.SetDump(core.DumpAll())
-			close(gate)
-			return
-		}
-		if pv == nil {
-			c.Violate("invalid-accepted", "the invalid call (%s) did not panic", kind)
-		}
+		// (whether the invalid call panics, returns or blocks is the documentation's business, not the statement's:
+		// only its effect on the valid calls is judged)
+		_, _ = ret, pv
 	}
 	for i := 0; i < after; i++ {
 		call(before+i, nil)
@@ -552,8 +553,7 @@ func c14Rejected(c *core.Ctx) {
 	close(gate)
 	desc := fmt.Sprintf("N=%d, %d gated calls, %d rejected calls, %d later calls", n, before, rejected, after)
 	if !core.AwaitDone(core.Go(wg.Wait), 10000) {
-		count, target, queued := r.w.VerifState()
-		c.Violate("call-starved", "valid calls made before/after a rejected (panicking, recovered) call never returned (count=%d target=%d queued=%d); %s", count, target, queued, desc)
+		c.Violate("call-starved", "valid calls made before/after a rejected (panicking, recovered) call never returned (%s); %s", c14State(r.w), desc)
 		c.SetDump(core.DumpAll())
 		return
 	}
